@@ -94,18 +94,30 @@ theorem step_keeps_call {s s' : State} {l : Label} {c j : Nat} {cn : Conn} {k : 
     · rcases Nat.lt_or_ge c s.conns.length with h' | h'
       · exact h'
       · rw [List.getElem?_eq_none h'] at hc; cases hc
+  case offerTls =>
+    cases h
+    refine same cn ?_ hk rfl
+    show (s.conns ++ _)[c]? = some cn
+    rw [List.getElem?_append_left]
+    · exact hc
+    · rcases Nat.lt_or_ge c s.conns.length with h' | h'
+      · exact h'
+      · rw [List.getElem?_eq_none h'] at hc; cases hc
+  case clientHello c' => exact viaConn h (fun _ => rfl) (fun _ => rfl)
+  case tlsTake c' =>
+    split at h
+    · exact viaConn h (fun _ => rfl) (fun _ => rfl)
+    · cases h
+  case tlsDone c' => exact viaConn h (fun _ => rfl) (fun _ => rfl)
+  case tlsFail c' => exact viaConn h (fun _ => rfl) (fun _ => rfl)
   case freeRun => cases h; exact same cn hc hk rfl
   case sigFire | endIncoming | acceptErr | loopSig | loopErr | loopEnd | afterLoop =>
     split at h
     · cases h; exact same cn hc hk rfl
     · cases h
-  case ageTick =>
+  case ageTick c' =>
     split at h
-    · cases h
-      refine same (if (cn.accepted && !cn.closed) = true then { cn with ageReady := true } else cn)
-        (by show (s.conns.map _)[c]? = _; rw [List.getElem?_map, hc]; rfl) ?_ ?_
-      · split <;> exact hk
-      · split <;> rfl
+    · exact viaConn h (fun _ => rfl) (fun _ => rfl)
     · cases h
   case resolve =>
     split at h
@@ -113,9 +125,9 @@ theorem step_keeps_call {s s' : State} {l : Label} {c j : Nat} {cn : Conn} {k : 
       exact same { cn with pending := false }
         (by show (s.conns.map _)[c]? = _; rw [List.getElem?_map, hc]; rfl) hk rfl
     · cases h
-  case issue c' chunks =>
+  case issue c' chunks req =>
     obtain ⟨cn0, hc0, _, rfl⟩ := updConn_some h
-    rcases getElem?_set_cases (i := c') (a := { cn0 with calls := cn0.calls ++ [Call.new chunks] }) hc
+    rcases getElem?_set_cases (i := c') (a := { cn0 with calls := cn0.calls ++ [Call.new chunks req] }) hc
       with ⟨rfl, hs⟩ | ⟨_, hs⟩
     · have : cn0 = cn := by rw [hc0] at hc; exact Option.some.inj hc
       subst this
@@ -142,6 +154,8 @@ theorem step_keeps_call {s s' : State} {l : Label} {c j : Nat} {cn : Conn} {k : 
   case hsDone c' => exact viaConn h (fun _ => rfl) (fun _ => rfl)
   case final c' => exact viaConn h (fun _ => rfl) (fun _ => rfl)
   case permit c' j' =>
+    exact viaCall h (fun x _ hx => ⟨hx, id, rfl, ⟨[], by simp⟩, Nat.le_refl _⟩)
+  case reqSend c' j' =>
     exact viaCall h (fun x _ hx => ⟨hx, id, rfl, ⟨[], by simp⟩, Nat.le_refl _⟩)
   case cancel c' j' =>
     obtain ⟨cn', k', a, b, d, e⟩ := track_updCall h hc hk
